@@ -62,6 +62,18 @@ def valid_routes(p):
     return r
 
 
+def pick_add_route(rng, p, allow_ode=True):
+    """a route for ADDING p to an existing model, every add_* method (add_event with an Event, add_event with a bare
+    Transition, add_transition, add_birth_death, add_ode) equally likely among those that can take p"""
+    groups = {}
+    for r in valid_routes(p):
+        g = {"E": "event", "E1": "event", "T": "bare", "LT": "transition", "ODE": "ode"}.get(r, "birth_death")
+        if g == "ode" and not allow_ode:
+            continue
+        groups.setdefault(g, []).append(r)
+    return rng.choice(groups[rng.choice(sorted(groups))])
+
+
 def api_object(sy, p, route, rate_str, style=0, rng=None):
     """the API object for handing event-process p to PyGOM through `route`:
     returns (constructor slot, add_* method name, object)"""
